@@ -109,9 +109,17 @@ def _build(repo, flavour, out):
         else:
             jobs.append(base + ["-c", os.path.join(repo, "src", f), "-o", o])
         objs.append(o)
-    # parser: wrapper TU with bison's trace output routed into the harness
+    # parser: wrapper TU with bison's trace output routed into the harness; the file-statics it reads are detected in
+    # the generated parser of the tree being built (a renamed/removed one is simply left out of the digest)
+    ptxt = open(os.path.join(gen, "parser.cpp"), errors="replace").read()
+    has = []
+    for nm, pat in (("ch", r"^static\s+ParserBuilder\s*\*\s*ch\s*;"), ("syntax", r"^static\s+syntax_t\s+syntax\s*;"),
+                    ("syntax_token", r"^static\s+int\s+syntax_token\b"), ("types", r"^static\s+int\s+types\b"),
+                    ("rootTransId", r"^static\s+char\s+rootTransId\s*\[")):
+        if re.search(pat, ptxt, re.M):
+            has.append("-DUTAPV_HAS_" + nm)
     o = os.path.join(out, "obj", "parser.o")
-    jobs.append(base + PARSER_EXTRA[flavour] +
+    jobs.append(base + has + PARSER_EXTRA[flavour] +
                 ["-DYYDEBUG=1", "-DYYFPRINTF=utapv_trace", "-include", os.path.join(HARNESS, "utapv_trace.h"),
                  "-c", os.path.join(HARNESS, "wrap_parser.cpp"), "-o", o])
     objs.append(o)
